@@ -33,6 +33,10 @@ func (m *JCModel) Distance(seq1 []uint8, seq2 []uint8, weights []float64) (float
 	diff, total := countDiffs(seq1, seq2, m.selectedSites, weights, false)
 	diff = diff / total
 	b := 1. - 4.*diff/3.
+	// Saturated sequences or no comparable site: the distance is not defined
+	if !(b >= 0) {
+		return math.NaN(), nil
+	}
 	if m.gamma {
 		dist = .75 * m.alpha * (math.Pow(b, -1./m.alpha) - 1.)
 	} else {
